@@ -56,12 +56,21 @@ class World:
         self.n_clients = 0
         self.backends = []
         self.fps = {}           # client -> last parsed fingerprint
+        self.kp_owner = []      # key package index -> client
+        self.welcome_ev = {}    # welcome index -> number of the add commit that produced it
         self.do("world")
     def do(self, line):
         out = self.h.cmd(line)
         res, _, fp = out.partition(" | ")
         self.trace.append((line, res, fp))
         t = line.split()
+        if t[0] == "kp" and res.startswith("kp="):
+            self.kp_owner.append(int(t[1]))
+        if t[0] == "add":
+            m = re.match(r"ev=(\d+) .* w=([\d,]*)", res)
+            if m:
+                for x in [y for y in m.group(2).split(",") if y]:
+                    self.welcome_ev[int(x)] = int(m.group(1))
         if len(t) > 1 and t[1].isdigit() and t[0] not in ("rewrap", "retag"):
             f = parse_fp(fp)
             if f is not None or fp in ("nogroup", "norecord"):
@@ -84,13 +93,16 @@ class World:
         self.n_clients += 1
         self.backends.append(backend)
         return i
-    def setup_group(self, n, backends, admins, retention=5, relays=1):
-        for i in range(n):
+    def setup_group(self, n, backends, admins, retention=5, relays=1, outsiders=0):
+        """n initial members (client 0 creates, 1..n-1 join by welcome) and `outsiders` further clients that hold a key
+        package but no group until an admin adds them"""
+        for i in range(n + outsiders):
             self.add_client(backends[i], retention)
         kps = []
-        for i in range(1, n):
+        for i in range(1, n + outsiders):
             r, _ = self.do(f"kp {i}")
-            kps.append(r.split("=")[1])
+            if i < n:
+                kps.append(r.split("=")[1])
         r, _ = self.do(f"create 0 {','.join(map(str, admins))} 1 {relays} {','.join(kps) or '-'}")
         ws = r.split("w=")[1].split(",") if "w=" in r and r.split("w=")[1] else []
         for i, w in zip(range(1, n), ws):
@@ -183,23 +195,26 @@ def gen_data_update(w, rng, c, alive, others, tok, gone=(), p_nid=0.0):
             fields["admins"] = ",".join(map(str, sorted(new))) or "-"
     return " ".join(f"{k} {v}" for k, v in fields.items())
 
-def gen_race_history(w, rng, tier, regime=None, restarts=True, ties=True, p_rewrap=0.25, p_leave=0.0, p_adv=0.25, p_hole=0.3, p_upd=0.2, p_data=0.5, p_nid=0.3, p_retag=0.2):
+def gen_race_history(w, rng, tier, regime=None, restarts=True, ties=True, p_rewrap=0.25, p_leave=0.0, p_adv=0.25, p_hole=0.3, p_upd=0.2, p_data=0.5, p_nid=0.3, p_retag=0.2, p_add=0.3, p_remove=0.12):
     """setup, then rounds of concurrent actions on one epoch, per-client shuffled delivery with
     duplication, then quiescence rounds"""
     n = rng.choice([2, 3, 3, 4, 5] if tier == "quick" else [2, 3, 4, 5, 6])
-    backends = [rng.choice(["mem", "sql"]) for _ in range(n)]
+    # outsiders: clients that hold a key package but no group until an admin adds them (between rounds, uncontended)
+    outsiders = rng.choice([0, 0, 1, 2]) if (p_add > 0 and n <= 4) else 0
+    backends = [rng.choice(["mem", "sql"]) for _ in range(n + outsiders)]
     nadm = rng.randint(1, n)
     admins = sorted(rng.sample(range(n), nadm))
     if 0 not in admins:
         admins = [0] + admins[:-1] if len(admins) > 1 else [0]
     retention = rng.choice([5, 5, 5, 2, 1])
-    w.meta = {"n": n, "backends": backends, "admins": admins, "retention": retention, "p_rewrap": p_rewrap, "p_leave": p_leave}
-    w.setup_group(n, backends, admins, retention)
+    w.meta = {"n": n + outsiders, "members": list(range(n)), "backends": backends, "admins": admins, "retention": retention, "p_rewrap": p_rewrap, "p_leave": p_leave}
+    w.setup_group(n, backends, admins, retention, outsiders=outsiders)
+    pool = list(range(n, n + outsiders))
     regime = regime or rng.choice(["inorder", "causal", "unrestricted"])
-    apply_mode = {c: rng.choice(["echo", "echo", "immediate"]) for c in range(n)}
+    apply_mode = {c: rng.choice(["echo", "echo", "immediate"]) for c in range(n + outsiders)}
     w.meta.update({"regime": regime, "apply": apply_mode})
     ts = 100
-    delivered = {c: set() for c in range(n)}
+    delivered = {c: set() for c in range(n + outsiders)}
     tok = 0
     alive = list(range(n))
     # an admin removes a member first, so that the ratchet tree has a blank leaf below later committers
@@ -214,6 +229,7 @@ def gen_race_history(w, rng, tier, regime=None, restarts=True, ties=True, p_rewr
                 w.do("merge 0")
                 alive.remove(v)
                 w.meta["gone"] = [v]
+                w.never_told = {v}
                 for c in alive:
                     if c != 0:
                         w.deliver(c, e)
@@ -221,6 +237,26 @@ def gen_race_history(w, rng, tier, regime=None, restarts=True, ties=True, p_rewr
     rounds = rng.randint(1, 3 if tier == "quick" else 5)
     for rd in range(rounds):
         new = []
+        # an admin adds an outsider — outside any race, applied by everybody in order — and the newcomer joins by its welcome
+        if pool and rng.random() < p_add:
+            adders = [c for c in alive if c in view_admins(w, c) and (w.fps.get(c) or {}).get("state") == "a"]
+            if adders:
+                a = rng.choice(adders); j = pool[0]; ts += 2
+                kp = w.kp_owner.index(j)
+                e = w.publish(f"add {a} {kp} {ts}", "commit", a)
+                if e is not None:
+                    w.events[e]["apply"] = "immediate"
+                    w.do(f"merge {a}")
+                    for c in alive:
+                        if c != a:
+                            w.deliver(c, e)
+                    wi = [k for k, v in w.welcome_ev.items() if v == e]
+                    if wi:
+                        w.do(f"welcome {j} {wi[0]} 0")
+                        r2, _ = w.do(f"accept {j} {wi[0]}")
+                        if r2 == "ok":
+                            pool.pop(0); alive.append(j)
+                ts += 3
         # messages before the race
         for _ in range(rng.randint(0, 2)):
             s = rng.choice(alive); tok += 1; ts += 1
@@ -234,7 +270,11 @@ def gen_race_history(w, rng, tier, regime=None, restarts=True, ties=True, p_rewr
         for c, st in zip(committers, stamps):
             # the admin set changes during the history: who may update the group data is read from the client's own view;
             # now and then a non-admin tries as well (refused by the library)
-            if (c in view_admins(w, c) and rng.random() < p_data) or rng.random() < 0.05:
+            if c in view_admins(w, c) and len(alive) > 2 and rng.random() < p_remove:
+                # an admin removes somebody in the middle of a race (the victim keeps being scheduled: whether it is out depends
+                # on which commit it sees first — an eviction is final even if the removing commit loses)
+                e = w.publish(f"remove {c} {rng.choice([v for v in alive if v != c])} {st}", "commit", c)
+            elif (c in view_admins(w, c) and rng.random() < p_data) or rng.random() < 0.05:
                 tok += 1
                 upd = gen_data_update(w, rng, c, alive, [o for o in committers if o != c], tok, w.meta.get("gone", ()), p_nid)
                 e = w.publish(f"data {c} {upd} {st}", "commit", c)
@@ -327,8 +367,8 @@ def quiesce(w, max_rounds=5):
     for rd in range(max_rounds):
         changed = False
         for c in range(w.n_clients):
-            if c in gone_clients(w):
-                continue
+            if c in getattr(w, "never_told", ()) or w.fps.get(c) is None:
+                continue        # (removed before the races and deliberately never told; or holds no group)
             for e in sorted(w.events):
                 _, before, after = w.deliver(c, e)
                 if proj(before) != proj(after):
@@ -358,7 +398,8 @@ def mip03_winner_chain(w):
                 e = w.events.get(n)
                 # the state a client is in right after it APPLIED the commit (it was in the parent state before)
                 # (directly from the parent state, or after the rollback this delivery triggered)
-                if e is not None and before is not None and f["token"] != before["token"]:
+                # (an evicted client's state token does not move: nothing to learn from it)
+                if e is not None and before is not None and f["token"] != before["token"] and f["state"] == "a":
                     result_token.setdefault(n, set()).add(f["token"])
             if t[0] == "merge" and res == "ok" and before is not None and f["token"] != before["token"]:
                 mine = [n for n, e in w.events.items() if e["sender"] == c and e["kind"] == "commit" and e["parent_token"] == before["token"]]
@@ -487,8 +528,16 @@ def oracle_world(w):
             prev_fp[c] = f
     # ---- convergence (C01) and messages (C02) at quiescence ----
     final = {c: w.fps.get(c) for c in range(w.n_clients)}
-    gone = gone_clients(w)
-    live = {c: f for c, f in final.items() if f is not None and c not in gone and f["state"] == "a" and str(c) in f["members"].split(",")}
+    # the remaining members: clients that hold the group actively and are on the roster of those furthest ahead (a client that
+    # was removed and never told is not; nor is one whose removal it has processed)
+    cand = {c: f for c, f in final.items() if f is not None and f["state"] == "a" and str(c) in f["members"].split(",")}
+    roster = None
+    if cand:
+        top = max(f["epoch"] for f in cand.values())
+        for f in cand.values():
+            if f["epoch"] == top:
+                roster = set(f["members"].split(",")) if roster is None else roster & set(f["members"].split(","))
+    live = {c: f for c, f in cand.items() if roster is None or str(c) in roster}
     facts = {"quiesced": getattr(w, "quiesced", None), "live": len(live), "commits": len(commits),
              "rollbacks": sum(1 for i in range(1, len(w.trace)) if False)}
     if getattr(w, "quiesced", False) and len(live) >= 2:
@@ -529,6 +578,20 @@ def oracle_world(w):
                 if not knocked and any(w.events.get(n, {}).get("kind") == "commit" and cc in live for (cc, n) in gnf_first):
                     knocked = ["h-rotation-in-flight"]      # a sibling was never compared: it was not routed after a rotation
                 fail("C01", knocked[0] if knocked else "converged-not-mip03", len(w.trace) - 1, f"members agree on T{common} but the MIP-03 chain {chain} ends in T{cur}")
+    # C01: somebody the remaining members still have on their roster sits on an INACTIVE group: it processed a commit removing
+    # it that did not win (an eviction is carried out at once and is final: nothing is processed afterwards, so no rollback)
+    if getattr(w, "quiesced", False) and len(live) >= 1 and len({(f["epoch"], f["token"]) for f in live.values()}) == 1:
+        common = set(next(iter(live.values()))["members"].split(","))
+        for c, f in final.items():
+            if f is not None and f["state"] == "i" and str(c) in common:
+                fail("C01", "evicted-by-losing-commit", len(w.trace) - 1, f"c{c} holds the group as Inactive (evicted) but the remaining members agree on a state whose roster [{','.join(sorted(common))}] still contains it")
+    join_epoch = {}
+    for cmd, res, fp in w.trace:
+        t = cmd.split()
+        if t[0] == "accept" and res == "ok" and int(t[2]) in w.welcome_ev:
+            f = parse_fp(fp)
+            if f is not None:
+                join_epoch[int(t[1])] = f["epoch"]
     # C02: a message created on the winning branch ends stored, valid, at every remaining member
     if getattr(w, "quiesced", False) and live and facts.get("winner_tokens"):
         for n, e in w.events.items():
@@ -537,6 +600,8 @@ def oracle_world(w):
             if e["parent_token"] not in facts["winner_tokens"]:
                 continue
             for c, f in live.items():
+                if e["parent_epoch"] is not None and e["parent_epoch"] < join_epoch.get(c, 0):
+                    continue        # sent before c joined: a newcomer holds no secret of earlier epochs (C03)
                 rows = [m for m in f["msgs"] if m["id"].rstrip("!") == e["mid"]]
                 rec = f["recs"].get(n)
                 if not rows:
@@ -640,7 +705,8 @@ def run_histories(seed, n, tier, gen=gen_race_history):
 
 # ---- correspondence with Model.Client ----------------------------------------------------------
 
-ERR_KINDS = {"GroupNotFound": "1", "Message": "2", "CommitFromNonAdmin": "3", "Group": "4", "UpdateGroupContextExts": "5", "SelfUpdate": "6"}
+ERR_KINDS = {"GroupNotFound": "1", "Message": "2", "CommitFromNonAdmin": "3", "Group": "4", "UpdateGroupContextExts": "5", "SelfUpdate": "6",
+             "OwnLeafNotFound": "7", "ExportSecret": "8", "MergePendingCommit": "10", "CreateMessage": "11"}
 
 def model_input(w):
     """translate the harness trace into the model driver's input lines; returns [(trace_index, line)]"""
@@ -653,7 +719,13 @@ def model_input(w):
         t = cmd.split()
         ev = re.search(r"ev=(\d+) idnum=(\d+) ts=(-?\d+)(?: mid=(\d+))?", res)
         if t[0] == "create":
-            out.append((i, f"setup {n} {w.meta['retention']} {pers} {admins} 1"))
+            members = ",".join(map(str, w.meta.get("members", range(n))))
+            out.append((i, f"setup {n} {w.meta['retention']} {pers} {admins} 1 {members}"))
+        elif t[0] == "add":
+            who = ",".join(str(w.kp_owner[int(k)]) for k in t[2].split(","))
+            out.append((i, f"add {t[1]} {who} {ev.group(1)} {ev.group(3)} {ev.group(2)}" if ev else f"add {t[1]} {who} 9999 0 0"))
+        elif t[0] == "accept" and int(t[2]) in w.welcome_ev and res == "ok":
+            out.append((i, f"join {t[1]} {w.welcome_ev[int(t[2])]}"))
         elif t[0] in ("world", "client", "kp", "welcome", "accept", "decline"):
             continue
         elif t[0] == "send":
@@ -839,7 +911,7 @@ def replay_world(path, wid=None):
     """execute a stored command trace (corpus / replay file) on the harness; result lines in the file are ignored"""
     w = World(wid or f"corpus:{os.path.basename(path)}")
     cmds = [l.strip() for l in open(path) if l.strip() and not l.startswith("#")]
-    backends, retention, admins = [], 5, [0]
+    backends, retention, admins, members = [], 5, [0], None
     try:
         for c in cmds:
             t = c.split()
@@ -849,7 +921,8 @@ def replay_world(path, wid=None):
                 backends.append(t[2]); retention = int(t[3])
             if t[0] == "create":
                 admins = [int(x) for x in t[2].split(",") if x not in ("", "-")]
-            if t[0] in ("send", "selfupdate", "data", "leave", "advremove", "remove", "advupdate"):
+                members = [int(t[1])] + [w.kp_owner[int(k)] for k in t[5].split(",") if k not in ("", "-")]
+            if t[0] in ("send", "selfupdate", "data", "leave", "advremove", "remove", "advupdate", "add"):
                 kind = "app" if t[0] == "send" else ("proposal" if t[0] in ("leave", "advupdate") else "commit")
                 e = w.publish(c, kind, int(t[1]))
                 if e is not None and t[0] == "advupdate":
@@ -866,6 +939,8 @@ def replay_world(path, wid=None):
                 if t[0] == "client":
                     w.n_clients += 1; w.backends.append(t[2])
         w.meta = {"n": len(backends), "backends": backends, "admins": admins, "retention": retention}
+        if members is not None:
+            w.meta["members"] = sorted(members)
         w.quiesced = False
     except RuntimeError as e:
         w.crashed = str(e)
